@@ -149,3 +149,45 @@ PROPS['C19'] = {
                   'validity in [1, period], constant within a time window, parsed URIs never carry period 0, scheme/missing-secret/number/algorithm errors, '
                   'later duplicate wins by fold. The Lean model with its own SHA-1/256/512+HMAC is run against TOTP::from_str/value_at/get_secret on generated URIs.',
 }
+
+
+def judge_c20(case, out):
+    v = []
+    real, model = case['real'], out.get('model', {})
+    for k in ('composite', 'elements'):
+        if real.get(k) != model.get(k):
+            v.append(('DISAGREE', 'key:' + k, 'model %s = %s, reference/real = %s' % (k, model.get(k), real.get(k))))
+    ob = case['observed']
+    has_creds = real.get('elements') is not None
+    kind = case['tags'][0]
+    if has_creds:
+        if ob['save'] != 'authenticates':
+            v.append(('SPECFAIL', 'key:save-not-under-reference-composite:' + kind, 'save: %s' % ob['save']))
+        if ob['open_ref'] != 'ok':
+            v.append(('SPECFAIL', 'key:reference-keyed-file-does-not-open:' + kind, 'open: %s' % ob['open_ref']))
+        if ob['open_perturbed'] != 'err:key':
+            v.append(('SPECFAIL', 'key:perturbed-composite-not-rejected-as-key-error:' + kind, 'open: %s' % ob['open_perturbed']))
+    else:
+        if ob['save'] != 'err:key' or ob['open_ref'] != 'err:key':
+            v.append(('SPECFAIL', 'key:empty-credentials-accepted', str(ob)))
+    return v or [('AGREE', '', '')]
+
+
+PROPS['C20'] = {
+    'ops': ['key'],
+    'judge': judge_c20,
+    'rule': 'credential sets: password in {absent, empty, ASCII, non-ASCII, trailing/leading blank, NUL, newline} x key file in {absent, 32 raw bytes, '
+            '0..200 arbitrary bytes, 64 hex characters as text, XML v1 with 32-byte and other-length payloads and varied layout between elements, '
+            'XML v2 with upper/lower hex and every kind of white space inside the payload, v2 non-hex, XML without data, non-base64 v1, truncated XML, other XML}; '
+            'for each: model composite vs independent reference derivation; real save must authenticate under the reference composite; a file built by the '
+            'independent builder under the reference composite must open with the credentials and fail with a key error under a one-bit-perturbed composite. '
+            'non-trivial = key file present or password empty/non-ASCII; distinct by hash of the credentials',
+    'partial': ['KDB lone-element derivation (compositeKdb) and KDBX3 are exercised once the independent KDB/KDBX3 builders exist (C02); the KDB panic for a lone non-32-byte '
+                'element is recorded under C06',
+                'layout independence between XML elements is a property of the xml-rs tokenizer (Whitespace/Comment events never reach the cascade): exercised, not proved',
+                'pw_vs_pw_keyfile_distinct takes SHA-256 injectivity on the two occurring inputs as a hypothesis'],
+    'assumptions': ['HMAC-SHA-256 under the reference-derived key authenticating the real header means the real code derived the same composite'],
+    'level_text': 'Kernel-checked for every SHA-256/base64/hex function: element order, composite definition, each documented key-file encoding, white-space '
+                  'insensitivity of v2 payloads, password-only vs password+keyfile distinct (under injectivity), KDB lone element. The model (with Lean\'s own SHA-256, base64, '
+                  'hex, UTF-8) is compared with an independent reference derivation and with the real library through save/parse of independently built files.',
+}
